@@ -66,6 +66,31 @@ def get_file(size):
     return _FILES[size]
 
 
+class Pair:
+    """two objects over the same file, both opened before the fork; `a` is the one the programmes read, `b` is read once first"""
+
+    def __init__(self, a, b):
+        self.a, self.b = a, b
+
+    def open(self):
+        self.a.open()
+        self.b.open()
+        return self
+
+    def close(self):
+        self.a.close()
+        self.b.close()
+
+    def __getitem__(self, k):
+        return self.a[k]
+
+    def __iter__(self):
+        return iter(self.a)
+
+    def __getattr__(self, name):
+        return getattr(self.a, name)
+
+
 def fd_probe(obj):
     """in a child, right after its first read: is obj.file the same open file description as the parent's (dup'ed before fork)?"""
     dupfd = getattr(obj, "_vf_dup", None)
@@ -142,6 +167,8 @@ def _run_case(case, ctx, rel):
             return "opened"
         if isinstance(a, list) and a[0] == "nofd":
             return "nofd"
+        if isinstance(a, list) and a[0] == "other":
+            return other_exp(int(str(a[1]).lstrip("k")))
         if isinstance(a, list):
             return lines[:a[1]] if a[0] == "iter" else lines[a[1]:a[2]]
         return exp(a)
@@ -155,7 +182,23 @@ def _run_case(case, ctx, rel):
                 out_.append(v)
         return out_
 
+    second = bool(case.get("second"))
+    if second:
+        # a second object (of the other family of classes) over the same file is open in the parent as well, and every forked
+        # process reads through it once before it uses the first one: each opened file must keep working on its own
+        mk_a = mk
+        if seq:
+            mapping2 = {"k%d" % i: offs[i] for i in range(n)}
+            mk_b = lambda: wf.MapAccessFile(path, mapping2)
+            other_key, other_exp = (lambda i: "k%d" % i), (lambda i: lines[i] + "\n")
+        else:
+            mk_b = lambda: wf.RandomLineAccessFile(path)
+            other_key, other_exp = (lambda i: i), (lambda i: lines[i])
+        mk = lambda: Pair(mk_a(), mk_b())
+        ctx.label("two-objects-open-before-the-fork")
     progs = [[res_i(v) for v in expand(pr)] for pr in case["children"]]
+    if second:
+        progs = [[["other", other_key((7 * (ci + 1)) % n)]] + pr for ci, pr in enumerate(progs)]
     if case.get("nofd"):
         # the children have used up their file descriptors before they touch the file (a worker that holds many files open)
         progs = [[["nofd"]] + pr for pr in progs]
@@ -169,7 +212,7 @@ def _run_case(case, ctx, rel):
         grand = (gi, [key_of(res_i(v)) for v in expand(case["grand"][1])])
     if any(isinstance(a, list) for pr in progs + ([parent_prog] if parent_prog else []) for a in pr):
         ctx.label("iteration-or-slice-in-forked-process")
-    use_probe = kind in ("buffered", "map-dict", "map-index") and parent_prog is None and grand is None
+    use_probe = kind in ("buffered", "map-dict", "map-index") and parent_prog is None and grand is None and not second
 
     def make():
         o = mk()
@@ -260,7 +303,7 @@ def strategies(tier):
     prog = st.one_of(rnd_prog, rnd_prog, rnd_prog, seq_prog, seq_prog, long_prog, open_first)
     case = st.fixed_dictionaries({
         "cls": st.sampled_from(["buffered", "buffered", "mmap", "map-dict", "map-index"]),
-        "size": st.sampled_from(["small", "40k", "200k", "200k"]), "relpath": st.sampled_from([False, False, True]), "nofd": st.sampled_from([False, False, False, True]),
+        "size": st.sampled_from(["small", "40k", "200k", "200k"]), "relpath": st.sampled_from([False, False, True]), "nofd": st.sampled_from([False, False, False, True]), "second": st.sampled_from([False, False, False, True]),
         "parent_first": st.booleans(),
         "children": st.lists(prog, min_size=1, max_size=4),
         "parent_prog": st.one_of(st.none(), prog),
